@@ -246,7 +246,7 @@ def finite(x):
 
 
 def part_F(run):
-    FT = 240 if run.tier == "quick" else 1800
+    FT = 240 if run.tier == "quick" else 600
     dtypes = ["float16", "bfloat16", "float32"]
     for qname in ("qint8", "qfloat8_e4m3fn", "qfloat8_e5m2"):
         for dtype in dtypes:
@@ -363,7 +363,7 @@ def part_F(run):
                             run.add(f"C01/F-division-monotone[{dtype}]", [finite(a), finite(b), finite(s), z3.fpGT(s, z3.FPVal(0.0, srt)), z3.fpLEQ(a, b)],
                                     z3.fpLEQ(z3.fpDiv(z3.RNE(), a, s), z3.fpDiv(z3.RNE(), b, s)), "property",
                                     {"dtype": dtype, "lemma": "IEEE division by a positive divisor is monotone"},
-                                    timeout=120 if run.tier == "quick" else 3000)
+                                    timeout=120 if run.tier == "quick" else 600)
             # ---- (d) idempotence: float16 and float32 sources only (the property does not claim bfloat16)
             #      + finiteness of the dequantized value (a grid point is finite), split at |x| <= max/2 so that the
             #        known overflow at the very top of the dtype range (known finding) cannot mask anything else
